@@ -109,7 +109,7 @@ class Pack:
             ctx.violation("model " + inp, "golua: %s; Model.Pack says: %s" % (got, exp), replay, found_input=False)
         # ---- level A
         if fl.get("mal") == "1" and got.startswith("ok"):
-            ctx.violation(("packsize-accepts-trailing-X " if kind == "packsize" and fmt.endswith("X") else "malformed-accepted " + kind + " ") + show(toks[1][1:]),
+            ctx.violation("malformed-accepted " + kind + " " + show(toks[1][1:]),
                           "format %r is malformed (unknown option / size outside [1,16] / c without size / trailing X) but %s succeeded" % (fmt, kind), replay)
         if kind in ("unpack", "packsize") and fl.get("abad") == "1" and got.startswith("ok"):
             ctx.violation("%s-accepts-non-power-of-2-alignment %s" % (kind, show(toks[1][1:])),
@@ -118,13 +118,11 @@ class Pack:
             vals = toks[2:]
             self.last = (fmt, toks[1], vals, got, fl, lhs)
             if fl.get("rej") == "1" and got.startswith("ok"):
-                fam = "pack-c0-accepts-nonempty-string" if "c0" in fmt else "pack-accepts-unrepresentable"
+                fam = "pack-accepts-unrepresentable"
                 ctx.violation("%s fmt=%s vals=%s" % (fam, show(toks[1][1:]), show_vals(vals)),
                               "a value that the option cannot represent was packed without error: %s" % got, replay)
             if fl.get("acc") == "1" and not got.startswith("ok"):
                 fam = "pack-rejects-representable"
-                if "f" in fmt and any(canon_tok(v) == "fnan" for v in vals):
-                    fam = "pack-f-rejects-nan"
                 ctx.violation("%s fmt=%s vals=%s" % (fam, show(toks[1][1:]), show_vals(vals)),
                               "well-formed format and representable values, but string.pack raised: %s" % got, replay)
             if got == "panic":
@@ -134,8 +132,7 @@ class Pack:
                 ctx.violation("packsize-panic " + inp, "Go panic in string.packsize", replay)
             if got.startswith("ok i-"):
                 ctx.violation("packsize-negative " + show(toks[1][1:]), "string.packsize returned a negative size: " + got, replay)
-            # (`c0` packs the whole string — known finding — so the packed length says nothing about the format's size)
-            if self.last and self.last[1] == toks[1] and self.last[3].startswith("ok d") and "c0" not in fmt:
+            if self.last and self.last[1] == toks[1] and self.last[3].startswith("ok d"):
                 n = len(self.last[3][4:]) // 2
                 if got.startswith("ok"):
                     if got != "ok i%d" % n:
@@ -152,8 +149,6 @@ class Pack:
                 want = "ok " + " ".join([canon_tok(v) for v in last[2]] + ["i%d" % (len(toks[2][1:]) // 2 + 1)])
                 if got != want:
                     fam = "roundtrip"
-                    if last[4].get("ndx") != "1":
-                        fam = "roundtrip-X-asymmetry"
                     ctx.violation("%s fmt=%s vals=%s" % (fam, show(toks[1][1:]), show_vals(last[2])),
                                   "unpack(fmt, pack(fmt, v...)) returned %s, expected %s" % (got, want),
                                   "c17 replay %s\nobserved unpack: %s\nexpected: %s\n" % (last[5], got, want))
@@ -207,6 +202,8 @@ def check_quote(ctx, line, exp_full):
         ok = eq == "t"
     if not ok:
         ctx.violation("%s %s" % (kind, v), "reading back %s gives %s (== original: %s)" % (show(text), back, eq), replay)
+    elif same != "t" and kind in ("qi", "qf"):
+        ctx.violation("%s-subtype %s" % (kind, v), "the %%q text %s reads back as %s: the integer/float subtype is lost" % (show(text), back), replay)
     if exp != "?":
         e = exp.split(" ")
         if text != e[1]:
@@ -225,10 +222,6 @@ def fmt_family(d, v, got):
         n = int(v[1:]) if v.startswith("i") else None
     except ValueError:
         n = None
-    if got == "panic" or (got.startswith("ok d") and b"NOVERB" in binascii.unhexlify(got[4:])):
-        return "fmt-incomplete-directive"
-    if verb == "o" and n is not None and n < 0:
-        return "fmt-%o-negative"
     if verb in "xX" and "#" in fl and n == 0:
         return "fmt-%#x-zero"
     if verb == "o" and "#" in fl and n == 0 and "." in fl:
@@ -237,8 +230,6 @@ def fmt_family(d, v, got):
         return "fmt-%#0x-width"
     if verb in "di" and n == 0 and "." in fl and ("+" in fl or " " in fl):
         return "fmt-%+.0d-zero"
-    if verb == "s" and v.startswith("s") and any(b >= 128 for b in binascii.unhexlify(v[1:])):
-        return "fmt-%s-counts-runes"
     return None
 
 
@@ -337,8 +328,7 @@ def run(ctx):
                 "string with a control or non-ASCII byte, number from a boundary class, directive with flags/width/precision; "
                 "distinct by canonical text")
     ctx.assumptions = [
-        "unicode.IsPrint (for code points >= 0x80) and strconv.FormatFloat are parameters of Model.Quote; the harness exports the "
-        "non-printable runes of each string, float texts are checked only by reading them back",
+        "strconv.FormatFloat is a parameter of Model.Quote: float texts are checked only by reading them back (value and subtype)",
         "memory budgets (LinearUnused) of pack/unpack are not modelled: the runtime is unlimited",
         "little-endian amd64: native byte order, sizes and alignment as compiled into golua",
         "string<->number coercions of pack arguments are not modelled (counted as pack:unmodelled-coercion)",
